@@ -229,6 +229,7 @@ def side_cases(thorough):
         for ports in R.subsets(own_p):
             yield {'kind': 'side', 'side': 'provides', 'sts': sts, 'mts': mts, 'ports': ports, 'inj': []}
             yield {'kind': 'side', 'side': 'provides', 'sts': sts, 'mts': mts, 'ports': ports, 'inj': [], 'form': 'subclass'}
+            yield {'kind': 'side', 'side': 'provides', 'sts': sts, 'mts': mts, 'ports': ports, 'inj': [], 'form': 'selsubclass'}
     for sts, mts in itertools.product(R.selections(own_r + ['u', own_p[0], 'i']), repeat=2):
         for ports in R.subsets(own_r):
             for inj in ([], ['i'], ['i', 'j', 'k']):
@@ -271,6 +272,10 @@ def equal_selection_cases(thorough):
                            'form': 'subclass'}
                     yield {'kind': 'e2e', 'prov': prov, 'req': req, 'inj': inj, 'psel': [sts, mts], 'rsel': [sts, mts],
                            'interleave': True}
+                    # EXTENSION: the selections as instances of a user's own subclass of PortSelect
+                    if len(inj) != 1:
+                        yield {'kind': 'e2e', 'prov': prov, 'req': req, 'inj': inj, 'psel': [sts, mts], 'rsel': [sts, mts],
+                               'form': 'selsubclass'}
 
 
 # NAME SHAPES: the same family over port names that are keywords / builtins of Python, keywords of C++, or made of underscores
@@ -280,12 +285,14 @@ ODD_UNIVERSES = [(['pass', 'from'], ['is', 'None']), (['default', 'new'], ['this
 
 def odd_name_cases(_thorough):
     for own_p, own_r in ODD_UNIVERSES:
-        universe = own_p + own_r + ['u']
-        for sts, mts in itertools.product(R.selections(universe), repeat=2):
+        # each side on its own (the other side all-MTS through a wildcard), names of the side + an unknown one
+        for sts, mts in itertools.product(R.selections(own_p + ['u']), repeat=2):
             for prov in R.subsets(own_p):
-                for req in R.subsets(own_r):
-                    for inj in ([], ['i']):
-                        yield {'kind': 'e2e', 'prov': prov, 'req': req, 'inj': inj, 'psel': [sts, mts], 'rsel': [sts, mts]}
+                yield {'kind': 'e2e', 'prov': prov, 'req': own_r[:1], 'inj': [], 'psel': [sts, mts], 'rsel': ['NONE', 'ALL']}
+        for sts, mts in itertools.product(R.selections(own_r + ['u']), repeat=2):
+            for req in R.subsets(own_r):
+                for inj in ([], ['i']):
+                    yield {'kind': 'e2e', 'prov': own_p[:1], 'req': req, 'inj': inj, 'psel': ['NONE', 'ALL'], 'rsel': [sts, mts]}
 
 
 def class_cross_cases(thorough):
